@@ -22,15 +22,19 @@ var badOrigins = []string{
 	"https://*.*.example.com", "http://*.127.0.0.1", "https://example.com:", "example.com", "https://",
 	"http://[fe80::1%eth0]:8080", "http://[::ffff:1.2.3.4]", "https://*." + longLabels252, "https://" + longLabels252 + "x.toolong",
 	"https://" + strings.Repeat("a", 64) + ".example.com", strings.Repeat("s", 65) + "://example.com",
+	"https://a.example.com,https://b.example.com", "https://a.example.com https://b.example.com", "https://example.com/", "https://example.com, null",
 }
 
 // 252 bytes of legal labels: one byte more than a subdomain pattern's base may have
 var longLabels252 = strings.Repeat("a", 63) + "." + strings.Repeat("b", 63) + "." + strings.Repeat("c", 63) + "." + strings.Repeat("d", 56) + ".com"
-var badMethods = []string{"CONNECT", "TRACE", "TRACK", "connect", "GE T", "", "a/b", "tRaCe"}
+var badMethods = []string{"CONNECT", "TRACE", "TRACK", "connect", "GE T", "", "a/b", "tRaCe",
+	// several values in one string, as other libraries' options accept them: not a token here
+	"PUT,DELETE", "PUT, CONNECT, TRACE", "GET;POST", "GET,TRACE"}
 var badReqHdrs = []string{"X Foo", "", "Cookie", "Sec-Foo", "proxy-x", "Host", "Access-Control-Allow-Origin",
-	"access-control-allow-headers", "Access-Control-Request-Headers", "Origin", "a:b", "Content-Length"}
+	"access-control-allow-headers", "Access-Control-Request-Headers", "Origin", "a:b", "Content-Length",
+	"X-A,X-B", "X-A, Cookie", "Content-Type;X-B"}
 var badResHdrs = []string{"Set-Cookie", "set-cookie2", "Origin", "a b", "", "Access-Control-Request-Method",
-	"Access-Control-Allow-Methods", "Access-Control-Max-Age"}
+	"Access-Control-Allow-Methods", "Access-Control-Max-Age", "X-A,X-B", "X-A, Set-Cookie"}
 var badMaxAge = []int{-2, 86401, -100, 1 << 30}
 var badStatus = []int{199, 300, 100, 404, -1, 1}
 
